@@ -332,6 +332,18 @@ SUFFIXES = {"C33": ["find 0", "find 1", "find 2", "find 3", "find 4", "find 5", 
 PRE_THIS, PRE_OTHER = [1], [0, 1, 2, 3, 4, 5]
 
 
+# several exchanges on one connection: after the first completed exchange the generator allows DEPTH2 further inputs
+# (refused re-request + a Just Works / passkey / OOB legacy exchange = 4, refused re-request + a LESC exchange = 6)
+SEGS = 1
+
+
+def depth2(c, k):
+    """inputs allowed after the first completed exchange of a behaviour, per manager kind"""
+    if c.quick:
+        return {0: 4, 1: 0, 2: 4}[k["kind"]]        # a LESC-only manager needs 6 for a second complete exchange: thorough tier
+    return {0: 4, 1: 6, 2: 6}[k["kind"]]
+
+
 def suffix(prop):
     return SUFFIXES.get(prop, SUFFIX)
 
@@ -374,7 +386,7 @@ def tla_cfg(k, oob, sync):
 
 def generate_behaviours(c, specdir, configs):
     """one TLC run: transition cover for all configurations -> {cfg_name: [behaviour]} (behaviour[0] = reset op)"""
-    cfgs, reqcases, depthcases = [], [], []
+    cfgs, reqcases, depthcases, depth2cases = [], [], [], []
     pdus = finds = encs = None
     for k in configs:
         reqs, pdus, syncs, oobs, finds, encs, depth = gen_inputs(c, k)
@@ -382,17 +394,19 @@ def generate_behaviours(c, specdir, configs):
         cfgs += [tla_cfg(k, o, s) for o in oobs for s in syncs]
         reqcases.append("%s -> %s" % (sel, tla_set(reqs)))
         depthcases.append("%s -> %d" % (sel, depth))
+        depth2cases.append("%s -> %d" % (sel, depth2(c, k)))
     name = "GenRun"
     with open(os.path.join(specdir, name + ".tla"), "w") as f:
         f.write("---- MODULE %s ----\nEXTENDS SecurityManagerGen\nRConfigs == {\n  %s }\nRReqsOf(c) == CASE %s\n  [] OTHER -> {}\n"
-                "RDepthOf(c) == CASE %s\n  [] OTHER -> 0\nRPdus == %s\n====\n"
-                % (name, ",\n  ".join(cfgs), "\n  [] ".join(reqcases), "\n  [] ".join(depthcases), tla_set(pdus)))
+                "RDepthOf(c) == CASE %s\n  [] OTHER -> 0\nRDepth2Of(c) == CASE %s\n  [] OTHER -> 0\nRPdus == %s\n====\n"
+                % (name, ",\n  ".join(cfgs), "\n  [] ".join(reqcases), "\n  [] ".join(depthcases), "\n  [] ".join(depth2cases),
+                   tla_set(pdus)))
     cfg = os.path.join(specdir, name + ".cfg")
     with open(cfg, "w") as f:
-        f.write('CONSTANTS GConfigs <- RConfigs GReqsOf <- RReqsOf GDepthOf <- RDepthOf GPdus <- RPdus GFinds = {%s} GEnc = %s\n'
+        f.write('CONSTANTS GConfigs <- RConfigs GReqsOf <- RReqsOf GDepthOf <- RDepthOf GDepth2Of <- RDepth2Of GPdus <- RPdus GFinds = {%s} GEnc = %s GSegs = %d\n'
                 '  Enforce <- AllProps Configs <- NoRequests Requests <- NoRequests Opcodes <- NoOps LenClasses <- NoOps DbSlots <- NoOps\n'
                 'SPECIFICATION GSpec\nVIEW GView\nACTION_CONSTRAINT EmitEdge\nCHECK_DEADLOCK FALSE\n'
-                % (", ".join(str(x) for x in finds), "TRUE" if encs else "FALSE"))
+                % (", ".join(str(x) for x in finds), "TRUE" if encs else "FALSE", SEGS))
     behs = vlib.generate(c, specdir, name + ".tla", cfg, workers=1, timeout=2400)
     res, seen = {cfg_name(k): [] for k in configs}, set()
     for b in behs:
